@@ -49,11 +49,41 @@ def sh(cmd, cwd=None, timeout=None, env=None):
     return p.returncode, p.stdout
 
 
-def regenerate():
-    """Run the translator; returns (ok, log, changed files)."""
+def regenerate(modules=None):
+    """Run the translator; returns (ok, log, changed files). With `modules` (Lean module names of a property) a table that could not be
+    regenerated only counts if one of those modules - or the model behind the driver requests of that property - imports it."""
     code, out = sh([sys.executable, str(VERIF / "tools" / "gen_model.py")], cwd=str(VERIF), timeout=300)
     changed = [l.split(" ", 1)[1] for l in out.splitlines() if l.startswith("CHANGED ")]
+    failed = [l.split(" ")[1] for l in out.splitlines() if l.startswith("FAILED ")]
+    if code != 0 and failed and modules is not None:
+        deps = gen_imports(modules)
+        relevant = [f for f in failed if f in deps]
+        if not relevant:
+            return True, out + "\n(translator failures %r do not concern %r)" % (failed, list(modules)), changed
     return code == 0, out, changed
+
+
+def gen_imports(modules):
+    """names X of the RecipeGrid.Gen.X modules in the import closure of the given Lean modules"""
+    seen, todo, gens = set(), list(modules), set()
+    while todo:
+        m = todo.pop()
+        if m in seen:
+            continue
+        seen.add(m)
+        if m.startswith("RecipeGrid.Gen."):
+            gens.add(m.rsplit(".", 1)[1])
+            continue
+        f = LEAN / (m.replace(".", "/") + ".lean")
+        if not f.exists():
+            continue
+        for line in f.read_text().splitlines():
+            mm = re.match(r"\s*import\s+(RecipeGrid[.\w]*)", line)
+            if mm:
+                todo.append(mm.group(1))
+            elif line.strip() and not line.startswith(("import", "--", "/-")) and not line.startswith(" "):
+                break
+    return gens
 
 
 def lake_build(targets, timeout=3000):
